@@ -12,7 +12,7 @@ import (
 )
 
 // max time: 9999-12-31T23:59:59Z in ns since year 1
-var maxTimeNS = new(big.Int).Mul(big.NewInt(315537897599), big.NewInt(1_000_000_000))
+var maxTimeNS = new(big.Int).Add(new(big.Int).Mul(big.NewInt(315537897599), big.NewInt(1_000_000_000)), big.NewInt(999_999_999)) // 9999-12-31T23:59:59.999999999Z
 
 func (e *Exec) symTime(name string) TimeVal {
 	t := e.input(name, SInt)
@@ -33,10 +33,13 @@ func (e *Exec) intRange(t *Term) *Term {
 // symTimeText: an instant as a pricing text can carry it - RFC 3339 admits year 0000, which time.Parse reads
 var minTextNS = new(big.Int).Mul(big.NewInt(-366*86400), big.NewInt(1_000_000_000))
 
+// ... and a zone offset of up to 23:59 either way, so the instant may lie that much before year 0000 or after 9999
+var zoneNS = big.NewInt((23*3600 + 59*60) * 1_000_000_000)
+
 func (e *Exec) symTimeText(name string) TimeVal {
 	t := e.input(name, SInt)
-	e.addPC(e.tt.IntCmp(">=", t, e.tt.Int(minTextNS)))
-	e.addPC(e.tt.IntCmp("<=", t, e.tt.Int(maxTimeNS)))
+	e.addPC(e.tt.IntCmp(">=", t, e.tt.Int(new(big.Int).Sub(minTextNS, zoneNS))))
+	e.addPC(e.tt.IntCmp("<=", t, e.tt.Int(new(big.Int).Add(maxTimeNS, zoneNS))))
 	return TimeVal{NS: t}
 }
 
@@ -145,6 +148,7 @@ func init() {
 	})
 	reg("vh/vf.Dec", func(e *Exec, a []Value) Value { return bv(e.nonneg(e.strArg(a[0]))) })
 	reg("vh/vf.Time", func(e *Exec, a []Value) Value { return e.symTime(e.strArg(a[0])) })
+	reg("vh/vf.MaxTimestamp", func(e *Exec, a []Value) Value { return TimeVal{NS: e.tt.Int(maxTimeNS)} })
 	pricingTextD := func(loose, withDenom, dec bool) func(e *Exec, a []Value) Value {
 		return func(e *Exec, a []Value) Value {
 			name := e.strArg(a[0])
